@@ -289,7 +289,7 @@ CHECKS['C14']['level_note'] += ' A second job covers paths of up to 513 componen
 
 # ---- the same harnesses entered through ninja.cc's real_main (flag parsing, NinjaMain, RebuildManifest loop, RunBuild, real StatusPrinter)
 SCENARIOS.append('regen_manifest')     # 29
-SCENARIOS.append('dead_outputs'); SCENARIOS.append('tools_mix'); SCENARIOS.append('generator_runs_restat'); SCENARIOS.append('dyndep_after_order_only'); SCENARIOS.append('console_first'); SCENARIOS.append('restat_consumer'); SCENARIOS.append('include_switch'); SCENARIOS.append('dyndep_checked_in'); SCENARIOS.append('dyndep_rule_level_restat')    # 30 .. 38
+SCENARIOS.append('dead_outputs'); SCENARIOS.append('tools_mix'); SCENARIOS.append('generator_runs_restat'); SCENARIOS.append('dyndep_after_order_only'); SCENARIOS.append('console_first'); SCENARIOS.append('restat_consumer'); SCENARIOS.append('include_switch'); SCENARIOS.append('dyndep_checked_in'); SCENARIOS.append('dyndep_rule_level_restat'); SCENARIOS.append('stale_depfile_no_cycle'); SCENARIOS.append('phony_in_console_pool')    # 30 .. 40
 def _via_main(jobs, thorough_only=False):
     out = []
     for j in jobs:
@@ -360,6 +360,16 @@ def _midrun(jobs):
 CHECKS['C01']['jobs'] += _midrun(_hist_jobs('CHECK_C01', 2, 3, [0, 3, 8]))
 CHECKS['C11']['jobs'] += _midrun(_hist_jobs('CHECK_C11', 2, 2, [38], reach=('built',)))
 CHECKS['C01']['level_text'] += ' Further jobs let the user save a source while a command that has already read it is still running; the build after that must pick the edit up (restat and generator rules excepted).'
+
+_DISK_UNITS = ['disk_interface', 'util', 'string_piece_util', 'edit_distance']
+_disk_job = dict(name='real_disk', harness='c16_disk.cc', units=_DISK_UNITS, stubs=True, reach=['overwrote', 'created', 'nested-dirs'],
+                 quick=dict(defines=['VERIF_N=2'], bounds='RealDiskInterface: output path 0..3 directories deep, an older file of 0..4 arbitrary bytes present or not, new content of 0..2 arbitrary bytes; MakeDirs, WriteFile, ReadFile, Stat, RemoveFile'),
+                 thorough=dict(defines=['VERIF_N=3'], bounds='the same with contents of 0..3 / 0..5 bytes', limits=dict(time=3000, max_paths=3000000)))
+CHECKS['C16']['jobs'].append(dict(_disk_job)); CHECKS['C04']['jobs'].append(dict(_disk_job))
+CHECKS['C16']['level_text'] += ' One job drives the real RealDiskInterface (WriteFile, ReadFile, MakeDirs, Stat, RemoveFile) on the in-memory file system with arbitrary old and new contents.'
+CHECKS['C17']['jobs'] += _mode_jobs('MODE_CYCLE', [39], reach=('acyclic-built', 'reorganised'), bounds='a depfile / deps-log record naming a file that the reorganised manifest (second invocation) generates from the recording statement itself, whose command line changed: no cycle exists, none may be reported')
+CHECKS['C06']['jobs'] += _mode_jobs('MODE_SCHED', [40], reach=('built',), bounds='a phony statement bound to the console pool becomes ready in the middle of the build; -j in {1,2,3}, every completion order')
+CHECKS['C20']['jobs'] += _mode_jobs('MODE_STATUS', [40], reach=('success', 'output-shown'), bounds='a phony statement bound to the console pool becomes ready in the middle of the build; -j in {1,2,3}, each command prints or not, every completion order')
 
 # ---- the real process layer (RealCommandRunner, SubprocessSet, Subprocess, PosixJobserverClient) over the modelled operating system of harness/osmodel.h
 _OS_WRAP = ['pipe', 'close', 'read', 'write', 'open', 'fstat', 'sigemptyset', 'sigaddset', 'sigismember', 'sigprocmask', 'sigpending', 'sigaction', 'posix_spawn_file_actions_init', 'posix_spawn_file_actions_destroy',
